@@ -163,7 +163,7 @@ func (s *IndexedState) Load(ctx *Context) error {
 		if err := json.Unmarshal(bs, &x); err != nil {
 			return err
 		}
-		_, err := s.add(ctx, id, x)
+		_, _, err := s.add(ctx, id, x)
 		if err != nil {
 			_, is := err.(*ExpiredError)
 			if is {
@@ -256,14 +256,16 @@ func (s *IndexedState) Add(ctx *Context, id string, x Map) (string, error) {
 	Log(DEBUG, ctx, "IndexedState.Add", "state", s.Name, "factx", x, "id", id)
 	delete(s.cachedRules, id)
 	s.slock(ctx, false)
-	id, err := s.add(ctx, id, x)
+	id, fact, err := s.add(ctx, id, x)
 	s.sunlock(ctx, false)
 
 	if nil != err {
 		return "", err
 	}
 
-	js, err := json.Marshal(&x)
+	// Persist the prepared fact (absolute 'expires', etc.), which
+	// is what we keep in memory, not the raw input.
+	js, err := json.Marshal(&fact)
 	if err != nil {
 		return "", err
 	}
@@ -277,18 +279,18 @@ func (s *IndexedState) Add(ctx *Context, id string, x Map) (string, error) {
 	return id, err
 }
 
-func (s *IndexedState) add(ctx *Context, id string, x Map) (string, error) {
+func (s *IndexedState) add(ctx *Context, id string, x Map) (string, map[string]interface{}, error) {
 	Log(DEBUG, ctx, "IndexedState.add", "state", s.Name, "factx", x, "id", id)
 	then := time.Now()
 
 	id, fact, err := PrepareFact(ctx, id, x)
 	if err != nil {
-		return id, err
+		return id, nil, err
 	}
 
 	rule, err := ExtractRule(ctx, fact, false)
 	if err != nil {
-		return id, err
+		return id, nil, err
 	}
 
 	// If we are overwriting a rule, then that rule's pattern has
@@ -297,7 +299,7 @@ func (s *IndexedState) add(ctx *Context, id string, x Map) (string, error) {
 	if previous, have := s.IdToFact[id]; have {
 		if previousRule, _ := ExtractRule(ctx, previous, false); previousRule != nil {
 			if err = s.unindexRule(ctx, id, previousRule); err != nil {
-				return "", err
+				return "", nil, err
 			}
 		}
 	}
@@ -307,7 +309,7 @@ func (s *IndexedState) add(ctx *Context, id string, x Map) (string, error) {
 		Log(DEBUG, ctx, "IndexedState.add", "state", s.Name, "rule", rule, "ruleId", id)
 		if _, scheduled := rule["schedule"]; !scheduled {
 			if err = s.indexRule(ctx, id, rule); err != nil {
-				return "", err
+				return "", nil, err
 			}
 		}
 	}
@@ -320,7 +322,7 @@ func (s *IndexedState) add(ctx *Context, id string, x Map) (string, error) {
 		if err != nil {
 			Log(ERROR, ctx, "IndexedState.add", "state", s.Name, "error", err,
 				"when", "addHook")
-			return "", err
+			return "", nil, err
 		}
 	}
 
@@ -334,7 +336,7 @@ func (s *IndexedState) add(ctx *Context, id string, x Map) (string, error) {
 
 	elapsed := time.Now().Sub(then).Nanoseconds()
 	Log(DEBUG, ctx, "IndexedState.add", "state", s.Name, "id", id, "elapsed", elapsed)
-	return id, nil
+	return id, fact, nil
 }
 
 // GetRulesPatterns extracts the rule's 'when' pattern.
